@@ -1,6 +1,6 @@
 """C16 - decoding never yields an invalid point, a zero key or a mis-sized value."""
 from ..core.sym import evaluate, strip_sites
-from ..core.terms import show, subterms
+from ..core.terms import T, show, subterms
 from ..core import guards as G
 from ..core import bytesnf as B
 from .common import where, call_sites
@@ -41,14 +41,30 @@ def run(ctx):
             continue
         ev = evaluate(f)
         conv = [s for s in ev.sites.values() if s.callee[0] == "TryFrom::try_from" and s.callee[1][:1] == ("[u8; 32]",)]
-        imp = [s for s in ev.sites.values() if s.callee[0] in ("helpers::scalar_from_be_bytes", "SecretKey<C>::from_be_bytes")]
+        imp = [s for s in ev.sites.values() if s.callee[0] in ("helpers::scalar_from_be_bytes", "SecretKey<C>::from_be_bytes") or (s.callee[0] in P.fns and s.callee[0].endswith("::from_be_bytes"))]
         ok = len(conv) == 1 and len(imp) == 1 and B.peel(conv[0].args[0]).op == "param"
         if ok:
             lits = G.path_literals(ev, imp[0].bb, None, checks_only=True)
             ok = any(a[1] == "switch" and any(t.op == "call" and B.cname(t) == "TryFrom::try_from" for t in subterms(a[2])) for a, p in lits)
             arr = strip_sites(imp[0].args[0])
             ok = ok and any(t.op == "call" and B.cname(t) == "TryFrom::try_from" for t in subterms(arr))
-        ctx.ob("E4.len", ty, ok, "%s::try_from: <[u8;32]>::try_from(value) Ok-arm dominates the zero-rejecting big-endian import of that array" % ty, where=where(f))
+        if not ok and len(imp) == 1:
+            # the same thing spelled out: `if value.len() != 32 { return Err }; let mut b = [0u8; 32]; b.copy_from_slice(value)`
+            arr = B.peel(strip_sites(imp[0].args[0]))
+            cp = [x for x in subterms(arr) if x.op == "mutcall" and B.cname(x) == "slice::<impl [T]>::copy_from_slice"]
+            edits = [x for x in subterms(arr) if x.op == "store" or (x.op == "mutcall" and B.cname(x) != "slice::<impl [T]>::copy_from_slice")]
+            if len(cp) == 1 and not edits:
+                dst, src = cp[0].a[2][0], cp[0].a[2][1]
+                dl = B.int_form(T("len", strip_sites(dst)))
+                sp_ = B.peel(strip_sites(src))
+                exact = False
+                for atom, pol in G.path_literals(ev, imp[0].bb, P, checks_only=True):
+                    if atom[0] == "atom" and atom[1] == "cmp" and (atom[2] if pol else R._NEG[atom[2]]) == "Eq":
+                        fa, fb = B.int_form(strip_sites(atom[3])), B.int_form(strip_sites(atom[4]))
+                        if any(R._is_len_of(x, "value") for x in (atom[3], atom[4])) and (B.lin_eq(fa, ("c", 32)) or B.lin_eq(fb, ("c", 32))):
+                            exact = True
+                ok = sp_.op == "param" and sp_.a[1] == "value" and B.lin_eq(dl, ("c", 32)) and exact
+        ctx.ob("E4.len", ty, ok, "%s::try_from: <[u8;32]>::try_from(value) Ok-arm (or len(value) == 32 + copy into a [u8; 32]) dominates the zero-rejecting big-endian import of that array" % ty, where=where(f))
     f = rs.get("ProofCommitment")
     if f is not None:
         ev = evaluate(f)
